@@ -468,6 +468,9 @@ def extract_tournament():
     res = dict(rounds='?', draws='?', source='?', pick='?')
     if f is None:
         return res
+    body_ = [s_ for s_ in f.body if not (isinstance(s_, ast.Expr) and isinstance(s_.value, ast.Constant))]
+    res['returns_selected'] = (len(body_) == 3 and ast.unparse(body_[0]) == 'selected = []' and isinstance(body_[1], ast.For)
+                               and not body_[1].orelse and ast.unparse(body_[2]) == 'return selected')
     for n in ast.walk(f):
         if isinstance(n, ast.For) and n in f.body:
             res['rounds'] = ast.unparse(n.iter)
@@ -544,6 +547,37 @@ def extract_weighted():
     return res
 
 
+def tourn_prog(tour):
+    """the string reading of `tournament_selection` as a structured TournProg (Model/SelectProg.lean)"""
+    b = lambda v: 'true' if v else 'false'
+    agg, pick = '.other', '.other'
+    try:
+        e = ast.parse(tour['pick'], mode='eval').body
+        # np.where(AGG(step) == fitness)[0][K]
+        if isinstance(e, ast.Subscript) and isinstance(e.value, ast.Subscript) and ast.unparse(e.value.slice) == '0' \
+                and isinstance(e.value.value, ast.Call) and ast.unparse(e.value.value.func) == 'np.where' and len(e.value.value.args) == 1:
+            c = e.value.value.args[0]
+            if isinstance(c, ast.Compare) and len(c.ops) == 1 and isinstance(c.ops[0], ast.Eq):
+                sides = [ast.unparse(c.left), ast.unparse(c.comparators[0])]
+                if 'fitness' in sides:
+                    other = sides[1 - sides.index('fitness')]
+                    agg = {'min(step)': '.min', 'np.min(step)': '.min', 'max(step)': '.max', 'np.max(step)': '.max'}.get(other, '.other')
+                    pick = {'0': '.firstEq', '-1': '.lastEq'}.get(ast.unparse(e.slice), '.other')
+    except SyntaxError:
+        pass
+    return ('{ roundsRangeN := %s, drawsConstSize := %s, drawsFromFitness := %s, agg := %s, pick := %s, appendsInOrder := %s }'
+            % (b(tour['rounds'] == 'range(n)'), b(tour['draws'] == 'range(c.TOURNAMENT_SIZE)'), b(tour['source'] == 'np.random.choice(fitness)'),
+               agg, pick, b(tour.get('returns_selected', False))))
+
+
+def bern_prog(bern):
+    b = lambda v: 'true' if v else 'false'
+    nat = lambda v: v if v.isdigit() else '999'
+    return ('{ drawsUnit := %s, loopRangeSize := %s, cmp := %s, thenVal := %s, elseVal := %s }'
+            % (b((bern['low'], bern['high']) == ('0', '1')), b(bern['loop'] == 'range(size)'),
+               {'lt': '.lt', 'le': '.le', 'gt': '.gt', 'ge': '.ge'}.get(bern['op'], '.other'), nat(bern['t']), nat(bern['f'])))
+
+
 # ------------------------------------------------------------------ Lean text
 def gen_formulas():
     bench = extract_benchmarks()
@@ -614,6 +648,17 @@ def gen_formulas():
     t.append('theorem tournamentRule_eq : tournamentRule = Expected.tournamentRule := by decide +kernel')
     T['FormulasC18'] = t
     texts = {'FormulasDefs': defs}
+    tp, bp = tourn_prog(tour), bern_prog(bern)
+    texts['SelectDefs'] = '\n'.join(['-- GENERATED by harness/translate_formulas.py from math/general.py, math/distribution.py. Do not edit.',
+                                     'import OpyVerif.Model.SelectProg', 'namespace Opy.Gen', 'open Opy', '',
+                                     f'def tournProg : TournProg := {tp}', f'def bernProg : BernProg := {bp}', '', 'end Opy.Gen', ''])
+    texts['Select'] = '\n'.join(['-- GENERATED by harness/translate_formulas.py: obligations re-decided on every build. Do not edit.',
+                                 'import OpyVerif.Generated.SelectDefs', 'namespace Opy.Gen', 'open Opy',
+                                 '/-- `tournament_selection` reads as the program `Proofs/SelectProg.tournProg_is_tournament` proves to be `tournament` -/',
+                                 'theorem tournProg_eq : tournProg = Expected.tournProg := by decide +kernel',
+                                 '/-- `generate_bernoulli_distribution` reads as the program proved to be `bernoulli` -/',
+                                 'theorem bernProg_eq : bernProg = Expected.bernProg := by decide +kernel',
+                                 'end Opy.Gen', ''])
     for k, t in T.items():
         texts[k] = '\n'.join(t + ['end Opy.Gen', ''])
     data = dict(bench=[n for n, _ in bench], schedules=[n for n, _ in sched], writes=writes,
